@@ -102,11 +102,15 @@ func (t *Transport) Write(bs []byte) error {
 	if err != nil {
 		return fmt.Errorf("get writer: %w", err)
 	}
-	defer wr.Close()
-
 	n, err := t.encodeTo(wr, bs)
 	if err != nil {
+		wr.Close()
 		return fmt.Errorf("encode: %w", err)
+	}
+	// the back-ends frame and flush a message when its writer is closed: a failure there means the message
+	// has not left, it must not be reported (or counted) as written
+	if err := wr.Close(); err != nil {
+		return fmt.Errorf("close writer: %w", err)
 	}
 	atomic.AddUint64(t.txBytesCounter, uint64(n))
 
